@@ -335,7 +335,9 @@ impl<'a> Sim<'a> {
     /// The service of `node` emitted an `Io::Fetch` for `rid` from `remote`.
     pub fn check_fetch_emission(&mut self, node: usize, rid: &RepoId, remote: &NodeId, _trig: &Trigger) {
         if let Some((n, r, c, id)) = self.stale_watch {
-            if n == node && r == *rid {
+            // the call that applied a stale result starts a fetch of the same repository (the current
+            // fetch was retired) or another fetch with the same peer (its session accounting was cleared)
+            if n == node && (r == *rid || self.tasks[id as usize].remote == *remote) {
                 self.stale_watch = None;
                 self.report_stale(node, id, c);
             }
